@@ -1,8 +1,9 @@
 package main
 
 import (
+	hexpkg "encoding/hex"
 	"fmt"
-	"go/token"
+	"go/types"
 	"strings"
 
 	"golang.org/x/tools/go/ssa"
@@ -11,13 +12,17 @@ import (
 func init() {
 	register(&propDef{
 		id: "C13", run: runC13, minOblig: 5,
-		explanation: "Decides the mode structure of xts.Cipher (IEEE 1619 without ciphertext stealing), not the block cipher and not the GF(2^128) doubling arithmetic. Encrypt and Decrypt are interpreted (slices by length) for data lengths 0, 16, 32, 48, 64 with an equal and a longer destination, and for the invalid lengths 15, 17 and a shorter destination: they panic exactly for a destination shorter than the input or a length that is not a multiple of 16; otherwise the tweak buffer is cleared in all 16 bytes, the little-endian sector number is written to its first 8 bytes, it is encrypted ONCE with the SECOND key (k2.Encrypt — also in Decrypt); then for each 16-byte block in order: 16 bytes destination = source XOR tweak, the FIRST key is applied in place to that destination block (k1.Encrypt in Encrypt, k1.Decrypt in Decrypt), 16 bytes destination ^= tweak, both slices advance by 16, and mul2 is applied to the tweak exactly once — so block i uses tweak·2^i. NewCipher builds k1 from the first half and k2 from the second half of the key with the same constructor and rejects block sizes other than 16. mul2 shifts all 16 bytes left by one bit with carry and folds the carry-out into byte 0 with the constant 0x87 (store shape and constant only). NOT decided: AES itself; that mul2 is multiplication by x in GF(2^128) for every value; equality with IEEE 1619 test vectors.",
-		assumptions: []string{"cipher.Block contracts", "sync.Pool returns a *[16]byte (cleared by the function before use)"},
+		explanation: "Decides, by interpretation of the SSA over concrete bytes with the block cipher replaced by an oracle, that xts.Cipher computes IEEE 1619 XTS (without ciphertext stealing) on a finite set of inputs — independent of how the code is factored (helpers, loop forms, encoding/binary, subtle.XORBytes, copy/clear, bound method values, names). Every byte buffer is a modelled region (caller buffers, the *[16]byte from the pool with UNKNOWN initial contents, zeroed locals); a cipher.Block is identified by the struct field it is loaded from, and NewCipher is interpreted first to learn which field is built from which part of the key. C13.keys: for key lengths 32, 48, 64 the struct returned has exactly two cipher fields, one holding the result of the constructor parameter applied to key[:len/2] (the data key) and the other the result for key[len/2:] (the tweak key), judged by the content of the constructor's argument, the same fields for every length, and the returned error is nil exactly when BlockSize() is 16 (tried with 8, 16, 24, 32). C13.mode: Encrypt and Decrypt are interpreted for data lengths 0, 15, 16, 17, 32, 48, 64 with a shorter, an equal and a longer destination and, for the valid lengths, in place (destination and source the same memory): they panic exactly for a destination shorter than the input or a length that is not a multiple of 16; otherwise the log of block-cipher calls is exactly: ONE Encrypt under the tweak key of the 16 bytes (little-endian sector number, eight zero bytes) — all 16 bytes determined by the function, not left over in the pool buffer, also in Decrypt —, then per block i in order ONE call under the data key (Encrypt in Encrypt, Decrypt in Decrypt) whose input equals source block i XOR T·x^i, and the destination finally holds oracle output XOR T·x^i for every block, nothing is written behind len(src) and a separate source is unchanged. C13.mul2: the same interpretation of both functions for nine-block inputs with the oracle returning a chosen initial tweak T: the tweaks that whiten blocks 1..8 equal T·x^i in GF(2^128) mod x^128+x^7+x^2+x+1 in the little-endian byte order of IEEE 1619, wherever and however the doubling is written (helper, inline, bytes, words, math/bits). The initial tweaks are runs of consecutive one bits that start on a byte boundary, so the eight doublings move the run over every bit position: the thorough tier starts from all 1088 such runs and so doubles every one of the 8256 runs of one bits (plus the reduced values that follow once a run passes bit 127); the quick tier starts from the 272 runs of length 8k or 8k+1 and so doubles every run of those lengths at every position — every single bit (a basis of the linear map) and, for every limb width that is a multiple of 8, the values with an all-ones limb and the bit below it set, where an add-with-carry doubling loses its carry —; both tiers add zero, the all-ones values with one bit cleared on a byte boundary, and 40 pseudo-random values; chains from pseudo-random T up to x^3 are also in the mode cases. NOT decided: AES itself; the doubling for tweak values outside the enumerated family (comparison on enumerated values, no symbolic proof over all 2^128 values — a defect that shows only on other values is missed); equality with the published IEEE 1619 test vectors; inexact-overlap detection (C53).",
+		assumptions: []string{"cipher.Block contracts (Encrypt/Decrypt read 16 bytes of src and write 16 bytes of dst, deterministic)", "sync.Pool returns a *[16]byte with arbitrary contents"},
 	})
-	tech("C13", "flow-sensitive finite-domain interpretation of the XTS mode loop (effect transcript per block) compared with the IEEE 1619 structure; argument-provenance rule for the key halves")
+	tech("C13", "flow-sensitive interpretation of NewCipher, Encrypt and Decrypt over a byte-level memory model with the block cipher as an oracle; the log of oracle calls (key role, direction, input bytes) and the final destination bytes are compared with IEEE 1619 XTS computed by the checker; GF(2^128) doubling compared on an enumerated family of tweak values")
 }
 
 func runC13(c *Ctx) {
+	dataRole, tweakRole := "", ""
+	if f := c.fn("xts", "NewCipher"); f != nil {
+		dataRole, tweakRole = c13Keys(c, f)
+	}
 	for _, dec := range []bool{false, true} {
 		name := "(*Cipher).Encrypt"
 		if dec {
@@ -27,281 +32,417 @@ func runC13(c *Ctx) {
 		if f == nil {
 			continue
 		}
-		c13Mode(c, f, dec)
-	}
-	if f := c.fn("xts", "NewCipher"); f != nil {
-		key := f.Params[1]
-		half := func(v ssa.Value) string {
-			sl, ok := v.(*ssa.Slice)
-			if !ok || sl.X != ssa.Value(key) {
-				return ""
-			}
-			isHalf := func(x ssa.Value) bool {
-				bo, ok := x.(*ssa.BinOp)
-				if !ok || bo.Op != token.QUO {
-					return false
-				}
-				k, isK := constInt(bo.Y)
-				cl, isC := bo.X.(*ssa.Call)
-				return isK && k == 2 && isC && calleeName(&cl.Call) == "builtin:len" && cl.Call.Args[0] == ssa.Value(key)
-			}
-			switch {
-			case sl.Low == nil && sl.High != nil && isHalf(sl.High):
-				return "first"
-			case sl.High == nil && sl.Low != nil && isHalf(sl.Low):
-				return "second"
-			}
-			return ""
-		}
-		got := map[string]string{}
-		allInstrs(f, func(in ssa.Instruction) {
-			cl, ok := in.(*ssa.Call)
-			if !ok || cl.Call.IsInvoke() || cl.Call.StaticCallee() != nil || cl.Call.Value != ssa.Value(f.Params[0]) {
-				return
-			}
-			h := half(cl.Call.Args[0])
-			for _, r := range resultN(cl, 0) {
-				for _, ref := range *r.Referrers() {
-					if st, isS := ref.(*ssa.Store); isS {
-						if _, fld, _, okf := fieldOf(st.Addr); okf {
-							got[fld] = h
-						}
-					}
-				}
-			}
-		})
-		c.check(got["k1"] == "first" && got["k2"] == "second", "C13.keys", "xts.NewCipher key halves", f, "k1 = cipherFunc(key[:len/2]), k2 = cipherFunc(key[len/2:])", fmt.Sprintf("the data key and the tweak key are not the first and second half of the key (k1 from %q half, k2 from %q half)", got["k1"], got["k2"]))
-		okBS := false
-		allInstrs(f, func(in ssa.Instruction) {
-			if bo, ok := in.(*ssa.BinOp); ok && bo.Op == token.NEQ {
-				if k, isK := constInt(bo.Y); isK && k == 16 {
-					if cl, isC := bo.X.(*ssa.Call); isC && cl.Call.IsInvoke() && cl.Call.Method.Name() == "BlockSize" {
-						okBS = true
-					}
-				}
-			}
-		})
-		c.check(okBS, "C13.keys", "xts.NewCipher block size", f, "ciphers with a block size other than 16 are rejected", "the block size is not checked")
-	}
-	if f := c.fn("xts", "mul2"); f != nil {
-		// shape: per byte (b << 1) + carryIn, carryOut = b >> 7; final tweak[0] ^= 0x87 under carry != 0
-		shl, shr, fold := false, false, false
-		allInstrs(f, func(in ssa.Instruction) {
-			bo, ok := in.(*ssa.BinOp)
-			if !ok {
-				return
-			}
-			k, isK := constInt(bo.Y)
-			switch {
-			case bo.Op == token.SHL && isK && k == 1:
-				shl = true
-			case bo.Op == token.SHR && isK && k == 7:
-				shr = true
-			case bo.Op == token.XOR && isK && k == 0x87:
-				fold = true
-			}
-		})
-		c.check(shl && shr && fold && innermostLoopHeader(f.Blocks[len(f.Blocks)-1]) == nil, "C13.mul2", "xts.mul2 shape", f, "byte-wise shift left by one with carry, carry-out folded with 0x87", "mul2 is not a one-bit left shift with the 0x87 reduction")
+		c13Mode(c, f, dec, dataRole, tweakRole)
 	}
 }
 
-func c13Mode(c *Ctx, f *ssa.Function, dec bool) {
-	dstP, srcP, sector := f.Params[1], f.Params[2], f.Params[3]
-	var overlap []ssa.Value
-	for _, ci := range calls(f, func(n string) bool { return strings.HasSuffix(n, "alias.InexactOverlap") }) {
-		overlap = append(overlap, callValue(ci))
-	}
-	var tweak ssa.Value
-	allInstrs(f, func(in ssa.Instruction) {
-		if ta, ok := in.(*ssa.TypeAssert); ok && strings.Contains(ta.AssertedType.String(), "[16]byte") {
-			tweak = ta
+// ---------------------------------------------------------------------------
+// NewCipher
+
+func c13KeyRange(hex string) string {
+	b, err := hexpkg.DecodeString(hex)
+	if err != nil || len(b) == 0 {
+		if hex == "" {
+			return "key material the rule cannot follow"
 		}
-	})
-	if tweak == nil {
-		c.undecided("C13.mode", fnName(f), f, "tweak buffer not found")
+		return "bytes " + hex
+	}
+	for i := range b {
+		if b[i] != b[0]+byte(i) {
+			return "bytes " + hex
+		}
+	}
+	return fmt.Sprintf("key[%d:%d]", int(b[0])-1, int(b[0])-1+len(b))
+}
+
+func c13Keys(c *Ctx, f *ssa.Function) (dataRole, tweakRole string) {
+	// the struct whose fields hold the two ciphers: the pointee of the first result
+	var st *types.Struct
+	if rs := f.Signature.Results(); rs.Len() > 0 {
+		st = derefStruct(rs.At(0).Type())
+	}
+	if len(f.Params) < 2 || st == nil {
+		c.undecided("C13.keys", "xts.NewCipher", f, "signature is not (constructor, key) -> (*struct, error)")
 		return
 	}
-	wantK1 := "Encrypt"
-	if dec {
-		wantK1 = "Decrypt"
+	var ifaceFields []string
+	for i := 0; i < st.NumFields(); i++ {
+		if _, ok := st.Field(i).Type().Underlying().(*types.Interface); ok {
+			ifaceFields = append(ifaceFields, st.Field(i).Name())
+		}
 	}
-	cases, bad := 0, ""
-	for _, n := range []int64{0, 15, 16, 17, 32, 48, 64} {
-		for _, dd := range []int64{-1, 0, 5} {
-			if n+dd < 0 || bad != "" {
-				continue
+	type kcase struct{ L, bs int64 }
+	badHalves, badBS := "", ""
+	nH, nB := 0, 0
+	for _, kc := range []kcase{{32, 16}, {48, 16}, {64, 16}, {32, 8}, {32, 32}, {64, 24}} {
+		m := &c13Machine{blockSize: kc.bs, cipher: func(role, method string, in [16]byte) [16]byte { return c13Hash(role, method, string(in[:])) }}
+		w := &pathWalker{env: newEnv(), lengths: true, maxSteps: 20000, assumeErrNil: true}
+		m.install(w)
+		w.cls[f.Params[0]] = "CF"
+		w.cls[f.Params[1]], w.off[f.Params[1]] = "key", 0
+		w.env.bind(f.Params[1], kc.L)
+		for i := int64(0); i < kc.L; i++ {
+			m.write("key", i, i+1, true)
+		}
+		end := w.walk(f.Blocks[0], nil)
+		id := fmt.Sprintf("len(key)=%d BlockSize()=%d", kc.L, kc.bs)
+		note := ""
+		if len(m.notes) > 0 {
+			note = m.notes[0]
+		}
+		if end != "return" {
+			msg := id + ": the constructor ends with " + end
+			if w.why != "" {
+				msg += " (" + w.why + ")"
 			}
-			w := &pathWalker{env: newEnv(), lengths: true, maxSteps: 40000, assumeErrNil: true}
-			w.env.bind(dstP, n+dd)
-			w.env.bind(srcP, n)
-			for _, v := range overlap {
-				w.env.bind(v, 0)
+			if badHalves == "" {
+				badHalves = msg
 			}
-			class := map[ssa.Value]string{dstP: "dst", srcP: "src"}
-			off := map[ssa.Value]int64{dstP: 0, srcP: 0}
-			w.onSlice = func(w *pathWalker, sl *ssa.Slice) {
-				if cl, ok := class[sl.X]; ok {
-					lo := int64(0)
-					if sl.Low != nil {
-						lo, _ = w.env.eval(sl.Low)
-					}
-					class[sl], off[sl] = cl, off[sl.X]+lo
-				}
-				if sl.X == tweak {
-					class[sl] = "tweak"
-					lo := int64(0)
-					if sl.Low != nil {
-						lo, _ = w.env.eval(sl.Low)
-					}
-					off[sl] = lo
-				}
+			continue
+		}
+		var key []byte
+		for i := int64(0); i < kc.L; i++ {
+			key = append(key, byte(i+1))
+		}
+		first, second := fmt.Sprintf("%x", key[:kc.L/2]), fmt.Sprintf("%x", key[kc.L/2:])
+		var dataF, tweakF, desc []string
+		for _, fn := range ifaceFields {
+			r := m.field[fn]
+			switch {
+			case r == "B:"+first:
+				dataF = append(dataF, fn)
+			case r == "B:"+second:
+				tweakF = append(tweakF, fn)
 			}
-			w.onPhi = func(w *pathWalker, ph *ssa.Phi, in ssa.Value) {
-				if cl, ok := class[in]; ok {
-					class[ph], off[ph] = cl, off[in]
+			if strings.HasPrefix(r, "B:") {
+				desc = append(desc, fn+" = constructor("+c13KeyRange(r[2:])+")")
+			} else {
+				desc = append(desc, fn+" is not set from a constructor call")
+			}
+		}
+		nH++
+		if len(dataF) == 1 && len(tweakF) == 1 && len(ifaceFields) == 2 && note == "" {
+			d, t := "K:"+dataF[0], "K:"+tweakF[0]
+			if dataRole == "" {
+				dataRole, tweakRole = d, t
+			} else if (dataRole != d || tweakRole != t) && badHalves == "" {
+				badHalves = id + ": the fields holding the data key and the tweak key change with the key length"
+			}
+		} else if badHalves == "" {
+			badHalves = fmt.Sprintf("%s: the data key and the tweak key are not the first and second half of the key: %s; IEEE 1619: one cipher from key[0:%d], the other from key[%d:%d]", id, strings.Join(desc, ", "), kc.L/2, kc.L/2, kc.L)
+			if note != "" {
+				badHalves += " (" + note + ")"
+			}
+		}
+		// error result
+		ret := w.last.(*ssa.Return)
+		er := ""
+		if len(ret.Results) > 0 {
+			er = m.role(w, ret.Results[len(ret.Results)-1])
+		}
+		nB++
+		switch {
+		case er != "E:nil" && er != "E:err":
+			if badBS == "" {
+				badBS = id + ": the returned error value is not one the rule can follow"
+			}
+		case (kc.bs == 16) != (er == "E:nil"):
+			if badBS == "" {
+				if kc.bs == 16 {
+					badBS = id + ": a cipher with block size 16 is rejected"
 				} else {
-					delete(class, ph)
+					badBS = id + ": the block size is not checked — a cipher with this block size is accepted"
 				}
-			}
-			var evs []string
-			cnt := map[string]int{}
-			flush := func() {
-				for _, k := range []string{"clear", "xin", "xout"} {
-					if cnt[k] > 0 {
-						evs = append(evs, fmt.Sprintf("%s*%d", k, cnt[k]))
-						cnt[k] = 0
-					}
-				}
-			}
-			elemOf := func(v ssa.Value) (string, int64, bool) {
-				u, ok := v.(*ssa.UnOp)
-				if !ok {
-					return "", 0, false
-				}
-				ia, ok := u.X.(*ssa.IndexAddr)
-				if !ok {
-					return "", 0, false
-				}
-				if ia.X == tweak {
-					return "tweak", 0, true
-				}
-				cl, ok := class[ia.X]
-				return cl, off[ia.X], ok
-			}
-			w.onStore = func(w *pathWalker, st *ssa.Store) string {
-				ia, ok := st.Addr.(*ssa.IndexAddr)
-				if !ok {
-					return ""
-				}
-				if ia.X == tweak {
-					if k, isK := constInt(st.Val); isK && k == 0 {
-						cnt["clear"]++
-					} else {
-						evs = append(evs, "tweak-store?")
-					}
-					return ""
-				}
-				dcl, okd := class[ia.X]
-				if !okd || dcl != "dst" {
-					return ""
-				}
-				bo, isB := st.Val.(*ssa.BinOp)
-				if !isB || bo.Op != token.XOR {
-					evs = append(evs, "dst-store?")
-					return ""
-				}
-				c1, o1, ok1 := elemOf(bo.X)
-				c2, o2, ok2 := elemOf(bo.Y)
-				if !ok1 || !ok2 {
-					evs = append(evs, "dst-store?")
-					return ""
-				}
-				if c2 != "tweak" {
-					c1, c2, o1, o2 = c2, c1, o2, o1
-				}
-				_ = o2
-				switch {
-				case c1 == "src" && c2 == "tweak" && o1 == off[ia.X]:
-					if cnt["xout"] > 0 {
-						flush()
-					}
-					cnt["xin"]++
-				case c1 == "dst" && c2 == "tweak" && o1 == off[ia.X]:
-					if cnt["xin"] > 0 {
-						flush()
-					}
-					cnt["xout"]++
-				default:
-					evs = append(evs, "dst-store?")
-				}
-				return ""
-			}
-			w.onCall = func(w *pathWalker, ci ssa.CallInstruction) string {
-				cc := ci.Common()
-				name := short(calleeName(cc))
-				switch {
-				case cc.IsInvoke() && (cc.Method.Name() == "Encrypt" || cc.Method.Name() == "Decrypt"):
-					flush()
-					key := "?"
-					if p := accessPath(cc.Value); strings.HasSuffix(p, ".k1") {
-						key = "k1"
-					} else if strings.HasSuffix(p, ".k2") {
-						key = "k2"
-					}
-					a0, a1 := cc.Args[0], cc.Args[1]
-					arg := "?"
-					if class[a0] == "tweak" && class[a1] == "tweak" {
-						arg = "tweak"
-					} else if class[a0] == "dst" && class[a1] == "dst" && off[a0] == off[a1] {
-						arg = fmt.Sprintf("dst@%d", off[a0])
-					}
-					evs = append(evs, key+"."+cc.Method.Name()+"("+arg+")")
-				case strings.HasPrefix(name, "(encoding/binary.littleEndian).PutUint64"):
-					flush()
-					if class[cc.Args[1]] == "tweak" && off[cc.Args[1]] == 0 && cc.Args[2] == ssa.Value(sector) {
-						if l, _ := w.env.eval(cc.Args[1]); l == 8 {
-							evs = append(evs, "sector->tweak[0:8]")
-							return ""
-						}
-					}
-					evs = append(evs, "putuint64?")
-				case name == "xts.mul2":
-					flush()
-					if cc.Args[0] == tweak {
-						evs = append(evs, "mul2")
-					} else {
-						evs = append(evs, "mul2?")
-					}
-				}
-				return ""
-			}
-			end := w.walk(f.Blocks[0], nil)
-			flush()
-			cases++
-			id := fmt.Sprintf("len(src)=%d len(dst)=%d", n, n+dd)
-			wantPanic := dd < 0 || n%16 != 0
-			if end == "undecided" {
-				bad = id + ": " + w.why
-				break
-			}
-			if wantPanic != (end == "panic") {
-				bad = fmt.Sprintf("%s: panics=%v", id, end == "panic")
-				break
-			}
-			if wantPanic {
-				continue
-			}
-			want := []string{"clear*16", "sector->tweak[0:8]", "k2.Encrypt(tweak)"}
-			for b := int64(0); b < n/16; b++ {
-				want = append(want, "xin*16", fmt.Sprintf("k1.%s(dst@%d)", wantK1, 16*b), "xout*16", "mul2")
-			}
-			if strings.Join(evs, " ") != strings.Join(want, " ") {
-				bad = fmt.Sprintf("%s: code performs [%s], IEEE 1619 structure is [%s]", id, strings.Join(evs, " "), strings.Join(want, " "))
-			}
-			if w.oob {
-				bad = id + ": a slice expression leaves its bounds"
 			}
 		}
 	}
-	c.check(bad == "" && cases >= 15, "C13.mode", "xts."+fnName(f), f, fmt.Sprintf("%d (length, destination length) cases: guards and per-block transcript as specified", cases), bad)
+	c.check(badHalves == "" && nH >= 6 && dataRole != "", "C13.keys", "xts.NewCipher key halves", f, fmt.Sprintf("%d cases: data cipher %s from key[:len/2], tweak cipher %s from key[len/2:] (by content of the constructor's argument)", nH, strings.TrimPrefix(dataRole, "K:"), strings.TrimPrefix(tweakRole, "K:")), badHalves)
+	c.check(badBS == "" && nB >= 6, "C13.keys", "xts.NewCipher block size", f, "the error result is nil exactly for BlockSize() == 16 (8, 16, 24, 32 tried)", badBS)
+	if dataRole == "" && len(ifaceFields) == 2 {
+		// the halves rule has failed; the mode rules still need a reading of the
+		// two fields: declaration order
+		dataRole, tweakRole = "K:"+ifaceFields[0], "K:"+ifaceFields[1]
+	}
+	return
+}
+
+// ---------------------------------------------------------------------------
+// Encrypt / Decrypt
+
+type c13Case struct {
+	n, dd   int64
+	inplace bool
+	sector  uint64
+	t0      *[16]byte // the oracle's answer for the sector block (nil: pseudo-random)
+}
+
+func (cs c13Case) String() string {
+	s := fmt.Sprintf("len(src)=%d len(dst)=%d sector=%#x", cs.n, cs.n+cs.dd, cs.sector)
+	if cs.inplace {
+		s += " in place"
+	}
+	return s
+}
+
+// c13Run interprets f for one case and judges the outcome against IEEE 1619.
+// It returns the rule the defect belongs to ("mode" or "mul2") and a message,
+// or "", "" when the case is as specified.
+func c13Run(f *ssa.Function, dec bool, dataRole, tweakRole string, cs c13Case) (string, string) {
+	dstP, srcP, secP := f.Params[1], f.Params[2], f.Params[3]
+	var tweakIn [16]byte
+	for i := 0; i < 8; i++ {
+		tweakIn[i] = byte(cs.sector >> (8 * uint(i)))
+	}
+	m := &c13Machine{blockSize: 16}
+	m.cipher = func(role, method string, in [16]byte) [16]byte {
+		if cs.t0 != nil && role == tweakRole && method == "Encrypt" && in == tweakIn {
+			return *cs.t0
+		}
+		return c13Hash(role, method, string(in[:]))
+	}
+	w := &pathWalker{env: newEnv(), lengths: true, maxSteps: 40000, assumeErrNil: true}
+	m.install(w)
+	dreg, sreg := "out", "in"
+	if cs.inplace {
+		dreg, sreg = "io", "io"
+	}
+	w.cls[dstP], w.off[dstP] = dreg, 0
+	w.cls[srcP], w.off[srcP] = sreg, 0
+	w.env.bind(dstP, cs.n+cs.dd)
+	w.env.bind(srcP, cs.n)
+	w.env.bind(secP, int64(cs.sector))
+	src := make([]byte, cs.n)
+	for i := range src {
+		h := c13Hash("src", fmt.Sprint(cs.n, cs.sector, i/16))
+		src[i] = h[i%16]
+		m.write(sreg, int64(i), int64(src[i]), true)
+	}
+	end := w.walk(f.Blocks[0], nil)
+	id := cs.String()
+	note := ""
+	if len(m.notes) > 0 {
+		note = m.notes[0]
+	}
+	ops := m.ops
+	if end == "undecided" {
+		if note != "" {
+			return "mode", id + ": " + note + "; then " + w.why
+		}
+		return "mode", id + ": " + w.why
+	}
+	wantPanic := cs.dd < 0 || cs.n%16 != 0
+	if wantPanic != (end == "panic") {
+		if wantPanic {
+			return "mode", id + ": no panic for a destination shorter than the input or a length that is not a multiple of 16"
+		}
+		return "mode", id + ": panics on valid arguments"
+	}
+	if wantPanic {
+		return "", ""
+	}
+	if w.oob {
+		return "mode", id + ": an index or slice expression leaves its bounds"
+	}
+	if note != "" {
+		return "mode", id + ": " + note
+	}
+	name := func(role string) string {
+		switch role {
+		case dataRole:
+			return strings.TrimPrefix(role, "K:") + " (data key, first half of the key)"
+		case tweakRole:
+			return strings.TrimPrefix(role, "K:") + " (tweak key, second half of the key)"
+		}
+		return "a cipher value the rule cannot attribute to a key field (" + role + ")"
+	}
+	// 1. the sector tweak
+	if len(ops) == 0 {
+		return "mode", id + ": no block-cipher call at all; IEEE 1619 encrypts the sector number under the second key"
+	}
+	if op := ops[0]; true {
+		in, known := op.in, op.known
+		switch {
+		case op.role != tweakRole:
+			return "mode", fmt.Sprintf("%s: the first cipher call (the sector tweak) uses %s; IEEE 1619 computes the tweak with the second key %s", id, name(op.role), strings.TrimPrefix(tweakRole, "K:"))
+		case op.method != "Encrypt":
+			return "mode", fmt.Sprintf("%s: the sector tweak is computed with %s.%s; IEEE 1619 ENCRYPTS the sector number under the second key, also when decrypting", id, strings.TrimPrefix(op.role, "K:"), op.method)
+		case !known:
+			return "mode", fmt.Sprintf("%s: the block encrypted into the tweak is %s — the bytes shown as ?? are not set by the function (left over in the buffer taken from the pool)", id, op.hex)
+		case in != tweakIn:
+			return "mode", fmt.Sprintf("%s: the block encrypted into the tweak is %s; IEEE 1619: the little-endian sector number in bytes 0..7 and zeros in bytes 8..15 = %x", id, op.hex, tweakIn)
+		}
+	}
+	wantDir := "Encrypt"
+	if dec {
+		wantDir = "Decrypt"
+	}
+	// 2. one data-key call per block on src_i xor T*x^i
+	T := m.cipher(tweakRole, "Encrypt", tweakIn)
+	blocks := int(cs.n / 16)
+	if len(ops)-1 != blocks {
+		return "mode", fmt.Sprintf("%s: %d block-cipher calls after the sector tweak for %d blocks of input", id, len(ops)-1, blocks)
+	}
+	want := make([]byte, cs.n)
+	prevOK := true
+	var prevA [16]byte
+	for i := 0; i < blocks; i++ {
+		op := ops[i+1]
+		in, known := op.in, op.known
+		switch {
+		case op.role != dataRole:
+			return "mode", fmt.Sprintf("%s: block %d is processed with %s; IEEE 1619 uses the first key %s for the data", id, i, name(op.role), strings.TrimPrefix(dataRole, "K:"))
+		case op.method != wantDir:
+			return "mode", fmt.Sprintf("%s: block %d is processed with %s.%s; %s requires %s.%s", id, i, strings.TrimPrefix(op.role, "K:"), op.method, fnName(f), strings.TrimPrefix(dataRole, "K:"), wantDir)
+		case !known:
+			return "mode", fmt.Sprintf("%s: the cipher input of block %d is %s — bytes shown as ?? are not determined by the source and the tweak", id, i, op.hex)
+		}
+		var A, x [16]byte
+		for j := 0; j < 16; j++ {
+			A[j] = in[j] ^ src[16*i+j]
+			x[j] = src[16*i+j] ^ T[j]
+		}
+		if A != T {
+			switch {
+			case i == 0:
+				return "mode", fmt.Sprintf("%s: block 0 is whitened with %x before the cipher; IEEE 1619: with the encrypted sector tweak %x", id, A, T)
+			case prevOK && A == prevA:
+				return "mode", fmt.Sprintf("%s: block %d is whitened with the same tweak as block %d — the tweak is not multiplied by x between blocks", id, i, i-1)
+			case prevOK:
+				return "mul2", fmt.Sprintf("%s: the tweak after %x is %x; multiplication by x in GF(2^128) (little-endian shift left by one bit, x^128 = x^7+x^2+x+1, i.e. byte 0 ^= 0x87 on carry-out) gives %x", id, prevA, A, T)
+			}
+			return "mode", fmt.Sprintf("%s: block %d is whitened with %x; IEEE 1619: %x", id, i, A, T)
+		}
+		out := m.cipher(dataRole, wantDir, x)
+		for j := 0; j < 16; j++ {
+			want[16*i+j] = out[j] ^ T[j]
+		}
+		prevA, prevOK = A, true
+		T = c13Double(T)
+	}
+	// 3. the destination
+	for i := int64(0); i < cs.n; i++ {
+		v, known := m.read(dreg, i)
+		if !known || byte(v) != want[i] {
+			got := m.hex(dreg, i/16*16, 16)
+			return "mode", fmt.Sprintf("%s: destination block %d is %s; IEEE 1619: cipher output XOR the block's tweak = %x (second whitening missing, wrong, or written elsewhere)", id, i/16, got, want[i/16*16:i/16*16+16])
+		}
+	}
+	for i := cs.n; i < cs.n+cs.dd; i++ {
+		if m.written(dreg, i) {
+			return "mode", fmt.Sprintf("%s: destination byte %d behind the input length is written", id, i)
+		}
+	}
+	if !cs.inplace {
+		for i := int64(0); i < cs.n; i++ {
+			if v, known := m.read(sreg, i); !known || byte(v) != src[i] {
+				return "mode", fmt.Sprintf("%s: source byte %d is modified", id, i)
+			}
+		}
+	}
+	return "", ""
+}
+
+// c13Chain is the number of successive doublings observed per initial tweak.
+const c13Chain = 8
+
+// c13Family: the initial tweaks T from which chains T, T·x, ..., T·x^8 are
+// observed. Every run of consecutive one bits [a..b] is the value doubled at
+// step a%8 of the chain that starts with the run [a-a%8 .. b-a%8], so the runs
+// that start on a byte boundary generate all 8256 runs (and, past bit 127, the
+// reduced values that follow them). That is the thorough tier (1088 runs). The
+// quick tier starts only from the runs whose length is 0 or 1 modulo 8, i.e. it
+// doubles every run of length 8k or 8k+1 at every bit position: among them, for
+// every limb width that is a multiple of 8 and every limb position, the value
+// "limb all ones and the bit below it set", where an add-with-carry doubling
+// loses its carry, and every single bit (a basis of the linear map).
+func c13Family(full bool) [][16]byte {
+	var out [][16]byte
+	seen := map[[16]byte]bool{}
+	add := func(t [16]byte) {
+		if !seen[t] {
+			seen[t] = true
+			out = append(out, t)
+		}
+	}
+	add([16]byte{})
+	for a := 0; a < 128; a += 8 {
+		var t [16]byte
+		for b := a; b < 128; b++ {
+			t[b/8] |= 1 << uint(b%8)
+			if full || b%8 == 0 || b%8 == 7 {
+				add(t)
+			}
+		}
+		// all ones except one bit on the byte boundary
+		var n [16]byte
+		for i := range n {
+			n[i] = 0xff
+		}
+		n[a/8] &^= 1
+		add(n)
+	}
+	for i := 0; i < 40; i++ {
+		add(c13Hash("family", fmt.Sprint(i)))
+	}
+	return out
+}
+
+func c13Mode(c *Ctx, f *ssa.Function, dec bool, dataRole, tweakRole string) {
+	if len(f.Params) != 4 {
+		c.undecided("C13.mode", "xts."+fnName(f), f, "signature is not (receiver, dst, src, sector)")
+		return
+	}
+	if dataRole == "" || tweakRole == "" {
+		c.undecided("C13.mode", "xts."+fnName(f), f, "the fields holding the data cipher and the tweak cipher could not be determined from NewCipher")
+		return
+	}
+	sectors := []uint64{0x0807060504030201, 0xf1e2d3c4b5a69788, 0, 0xffffffffffffffff, 0x0000000100000000}
+	cases := 0
+	bad := map[string]string{}
+	try := func(cs c13Case) {
+		rule, msg := c13Run(f, dec, dataRole, tweakRole, cs)
+		cases++
+		if rule != "" && bad[rule] == "" {
+			bad[rule] = msg
+		}
+	}
+	for _, n := range []int64{0, 15, 16, 17, 32, 48, 64} {
+		for _, dd := range []int64{-1, 0, 5} {
+			if n+dd < 0 {
+				continue
+			}
+			try(c13Case{n: n, dd: dd, sector: sectors[cases%len(sectors)]})
+		}
+		if n%16 == 0 {
+			try(c13Case{n: n, inplace: true, sector: sectors[cases%len(sectors)]})
+		}
+	}
+	c.check(bad["mode"] == "" && cases >= 25, "C13.mode", "xts."+fnName(f), f, fmt.Sprintf("%d (length, destination, sector) cases incl. in place: panics, log of cipher calls (key, direction, input bytes) and destination bytes equal IEEE 1619 XTS over the cipher oracle", cases), bad["mode"])
+	if bad["mode"] != "" {
+		// the doubling is observed through the whitening of the blocks; with the
+		// mode structure already violated that observation means nothing
+		if bad["mul2"] != "" {
+			c.fail("C13.mul2", "xts."+fnName(f)+" tweak sequence", f, bad["mul2"])
+		}
+		return
+	}
+	fam := c13Family(c.thorough())
+	minFam, what := 300, "every run of consecutive one bits of length 8k or 8k+1 at every position (quick tier; the thorough tier takes every run)"
+	if c.thorough() {
+		minFam, what = 1100, "every run of consecutive one bits"
+	}
+	n := 0
+	for i := range fam {
+		if bad["mul2"] != "" || bad["mode"] != "" {
+			break
+		}
+		t := fam[i]
+		n++
+		try(c13Case{n: 16 * (c13Chain + 1), sector: sectors[i%len(sectors)], t0: &t})
+	}
+	msg := bad["mul2"]
+	if msg == "" {
+		msg = bad["mode"]
+	}
+	c.check(msg == "" && n >= minFam, "C13.mul2", "xts."+fnName(f)+" tweak sequence", f, fmt.Sprintf("the tweaks whitening blocks 1..%d equal T·x^i in GF(2^128) (IEEE 1619 byte order, reduction 0x87) for %d initial tweaks T; the %d values doubled include %s", c13Chain, n, n*c13Chain, what), msg)
 }
